@@ -1,5 +1,5 @@
 /-
-  RustSem: the semantic primitives that the GENERATED file `RenetVerif/Generated/Src.lean` calls.
+  RustSem: the semantic primitives that the GENERATED file `RenetVerif/Generated/Src/<Group>.lean` calls.
   `/verif/translator` turns the text of selected Rust functions (parsed with `syn`) into Lean
   definitions, expression by expression and statement by statement; every Rust construct it
   accepts is mapped to one of the definitions below (or to core Lean: `if`, `match`, tuples,
@@ -231,6 +231,15 @@ def wrapping_mul (w a b : Nat) : Nat := (a * b) % 2 ^ w
 def saturating_add (w a b : Nat) : Nat := if a + b < 2 ^ w then a + b else 2 ^ w - 1
 def saturating_sub (_w a b : Nat) : Nat := a - b
 def saturating_mul (w a b : Nat) : Nat := if a * b < 2 ^ w then a * b else 2 ^ w - 1
+
+/-- `x.leading_zeros()` for `x : uW` -/
+def leading_zeros (w x : Nat) : Nat := if x = 0 then w else w - 1 - Nat.log2 x
+/-- `x.trailing_zeros()` for `x : uW` -/
+def trailing_zeros (w x : Nat) : Nat := go w x
+where
+  go : Nat → Nat → Nat
+    | 0, _ => 0
+    | f + 1, x => if x % 2 = 1 then 0 else 1 + go f (x / 2)
 
 /-- `n` little-endian bytes of `x` -/
 def leBytes (x : Nat) : Nat → List Nat
